@@ -409,6 +409,23 @@ func directedRows() []directed {
 			},
 		},
 		{
+			// found by the fault DFS when the reconcilers were edited to swallow read errors: pinned
+			name: "a failing read of the XR / CRD is not taken for absence",
+			u:    full(nil),
+			script: []act{{Op: "del-claim"}, {Op: "rec-claim", F: "err-server", K: 1}, {Op: "del-xrd"}, {Op: "rec-def", F: "err-server", K: 2}, {Op: "rec-off", F: "err-server", K: 2}},
+			checks: []milestone{
+				{after: 1, desc: "the faulted call was the read of the XR and the claim keeps its finalizer", ok: func(w *world) bool {
+					return strings.HasPrefix(callName(w.lastRun, 1), "get example.org/XThing/") && w.hasFin("claim:0", finClaim) && !w.gone("xr:0")
+				}},
+				{after: 3, desc: "the faulted call was the read of the XR CRD and the XRD keeps its finalizer", ok: func(w *world) bool {
+					return strings.HasPrefix(callName(w.lastRun, 2), "get apiextensions.k8s.io/CustomResourceDefinition//xthings") && w.hasFin("xrd", finDefined) && w.eng.running[xrCtrl]
+				}},
+				{after: 4, desc: "the faulted call was the read of the claim CRD and the XRD keeps its finalizer", ok: func(w *world) bool {
+					return strings.HasPrefix(callName(w.lastRun, 2), "get apiextensions.k8s.io/CustomResourceDefinition//things") && w.hasFin("xrd", finOffered) && w.eng.running[claimCtrl]
+				}},
+			},
+		},
+		{
 			name: "package revision leaves the Lock before it is finalized",
 			u:    full(func(u *universe) { u.Revision = true }),
 			script: cat(one("del-rev"), []act{{Op: "rec-rev", F: "err-server", K: 2}, {Op: "rec-rev", F: "err-conflict", K: 3}, {Op: "rec-rev"}}),
